@@ -471,8 +471,9 @@ def canon(root, *, order_dicts=False, with_tags=True):
                            for k, ts in x.__argument_tags__.items() if ts), key=repr))
       return out
     if isinstance(x, Rec):
+      kw_items = sorted(x.kw.items()) if order_dicts else list(x.kw.items())
       return ['rec', n, x.fn_name, [[k, go(v)] for k, v in x.slots], [go(v) for v in x.var],
-              [[k, go(v)] for k, v in x.kw.items()]]
+              [[k, go(v)] for k, v in kw_items]]
     if hasattr(x, 'rec') and isinstance(getattr(x, 'rec'), Rec):
       return ['inst', n, go(x.rec)]
     if isinstance(x, functools.partial):
@@ -484,10 +485,10 @@ def canon(root, *, order_dicts=False, with_tags=True):
     if t is tuple:
       return ['tuple', n, [go(v) for v in x]]
     if t is dict or t is collections.defaultdict:
-      items = [[atom_token(k) if is_atom(k) else safe_repr(k), go(v)] for k, v in x.items()]
+      pairs = [(atom_token(k) if is_atom(k) else safe_repr(k), v) for k, v in x.items()]
       if order_dicts:
-        items = sorted(items, key=lambda kv: kv[0])
-      return [t.__name__, n, items]
+        pairs = sorted(pairs, key=lambda kv: kv[0])       # canonical traversal order
+      return [t.__name__, n, [[k, go(v)] for k, v in pairs]]
     if is_namedtuple(x):
       return ['ntuple', n, t.__name__, [[k, go(v)] for k, v in x._asdict().items()]]
     if isinstance(x, Pair):
